@@ -1,0 +1,9 @@
+//go:build !verif
+
+package server
+
+// Verification hooks (build tag "verif"). With the tag off these compile to nothing.
+
+func verifPoint(point string, args ...any) {}
+
+func verifTransport(handler any) {}
